@@ -1,7 +1,362 @@
 package main
 
 // harness gen <repo> <outdir>: regenerate the Coq tables (coq/Gen/*.v) from the Go source with go/ast (DESIGN 3.3).
+// Handles exactly the shapes present in the repository and aborts loudly on anything else:
+//   enums.go            func parseX(s string) T { switch s { case "..": return C ... default: return D | if hasParentStop {..} else {..} } }
+//   nyctalerts.go       var priortyToEffect = map[K]V{ gtfsrt.K1: gtfsrt.V1, ... };  var timetabledNoServicePriorities = map[K]bool{...}
+//   nycttrips.go        buggyStationIDs := map[string]bool{ "M11": true, ... }
+// Constants are resolved from the const blocks of enums.go and proto/*.pb.go.
+
+import (
+	"fmt"
+	"go/ast"
+	"go/parser"
+	"go/token"
+	"os"
+	"path/filepath"
+	"sort"
+	"strconv"
+	"strings"
+)
+
+type genCtx struct {
+	consts map[string]int64
+	errs   []string
+}
+
+func (g *genCtx) fail(format string, a ...any) { g.errs = append(g.errs, fmt.Sprintf(format, a...)) }
+
+func (g *genCtx) loadConsts(path string) {
+	fset := token.NewFileSet()
+	f, err := parser.ParseFile(fset, path, nil, 0)
+	if err != nil {
+		g.fail("parse %s: %v", path, err)
+		return
+	}
+	for _, d := range f.Decls {
+		gd, ok := d.(*ast.GenDecl)
+		if !ok || gd.Tok != token.CONST {
+			continue
+		}
+		for _, sp := range gd.Specs {
+			vs := sp.(*ast.ValueSpec)
+			for i, n := range vs.Names {
+				if i >= len(vs.Values) {
+					continue
+				}
+				if v, ok := g.intValue(vs.Values[i]); ok {
+					g.consts[n.Name] = v
+				}
+			}
+		}
+	}
+}
+
+func (g *genCtx) intValue(e ast.Expr) (int64, bool) {
+	switch x := e.(type) {
+	case *ast.BasicLit:
+		if x.Kind == token.INT {
+			v, err := strconv.ParseInt(x.Value, 0, 64)
+			return v, err == nil
+		}
+	case *ast.Ident:
+		v, ok := g.consts[x.Name]
+		return v, ok
+	case *ast.SelectorExpr:
+		v, ok := g.consts[x.Sel.Name]
+		return v, ok
+	case *ast.UnaryExpr:
+		if x.Op == token.SUB {
+			v, ok := g.intValue(x.X)
+			return -v, ok
+		}
+	case *ast.ParenExpr:
+		return g.intValue(x.X)
+	}
+	return 0, false
+}
+
+func coqStrLit(s string) string { return `"` + strings.ReplaceAll(s, `"`, `""`) + `"` }
+func coqZ(v int64) string {
+	if v < 0 {
+		return fmt.Sprintf("(%d)", v)
+	}
+	return fmt.Sprint(v)
+}
+
+// return expression of a single `return X` statement
+func (g *genCtx) retValue(stmts []ast.Stmt) (string, bool) {
+	if len(stmts) != 1 {
+		return "", false
+	}
+	switch s := stmts[0].(type) {
+	case *ast.ReturnStmt:
+		if len(s.Results) != 1 {
+			return "", false
+		}
+		v, ok := g.intValue(s.Results[0])
+		return coqZ(v), ok
+	case *ast.IfStmt: // if hasParentStop { return A } else { return B }
+		cond, ok := s.Cond.(*ast.Ident)
+		if !ok || s.Init != nil {
+			return "", false
+		}
+		a, ok1 := g.retValue(s.Body.List)
+		eb, ok2 := s.Else.(*ast.BlockStmt)
+		if !ok1 || !ok2 {
+			return "", false
+		}
+		b, ok3 := g.retValue(eb.List)
+		if !ok3 {
+			return "", false
+		}
+		return fmt.Sprintf("(if %s then %s else %s)", cond.Name, a, b), true
+	}
+	return "", false
+}
+
+func (g *genCtx) genEnums(repo string) string {
+	path := filepath.Join(repo, "enums.go")
+	fset := token.NewFileSet()
+	f, err := parser.ParseFile(fset, path, nil, 0)
+	if err != nil {
+		g.fail("parse %s: %v", path, err)
+		return ""
+	}
+	var b strings.Builder
+	b.WriteString("(* GENERATED from enums.go by harness/gen.go on every run — do not edit *)\nFrom GV Require Import Base.Prelude.\n\n")
+	// constants
+	var names []string
+	for n := range g.consts {
+		names = append(names, n)
+	}
+	sort.Strings(names)
+	want := map[string]bool{}
+	for _, d := range f.Decls {
+		if gd, ok := d.(*ast.GenDecl); ok && gd.Tok == token.CONST {
+			for _, sp := range gd.Specs {
+				for _, n := range sp.(*ast.ValueSpec).Names {
+					want[n.Name] = true
+				}
+			}
+		}
+	}
+	for _, n := range names {
+		if want[n] {
+			fmt.Fprintf(&b, "Definition %s : Z := %s.\n", n, coqZ(g.consts[n]))
+		}
+	}
+	b.WriteString("\n")
+	found := 0
+	for _, d := range f.Decls {
+		fd, ok := d.(*ast.FuncDecl)
+		if !ok || fd.Recv != nil || !strings.HasPrefix(fd.Name.Name, "parse") || fd.Body == nil {
+			continue
+		}
+		params := fd.Type.Params.List
+		if len(params) == 0 {
+			continue
+		}
+		// only the string -> enum decoders (switch on the first parameter)
+		if id, ok := params[0].Type.(*ast.Ident); !ok || id.Name != "string" {
+			continue
+		}
+		if len(fd.Body.List) != 1 {
+			g.fail("enums.go: %s: body is not a single switch", fd.Name.Name)
+			continue
+		}
+		sw, ok := fd.Body.List[0].(*ast.SwitchStmt)
+		if !ok || sw.Init != nil {
+			g.fail("enums.go: %s: body is not a single switch", fd.Name.Name)
+			continue
+		}
+		tag, ok := sw.Tag.(*ast.Ident)
+		if !ok || tag.Name != params[0].Names[0].Name {
+			g.fail("enums.go: %s: switch is not on the string parameter", fd.Name.Name)
+			continue
+		}
+		args := "(s : string)"
+		for _, p := range params[1:] {
+			for _, n := range p.Names {
+				args += fmt.Sprintf(" (%s : bool)", n.Name)
+			}
+		}
+		var cases []string
+		def := ""
+		for _, c := range sw.Body.List {
+			cc := c.(*ast.CaseClause)
+			val, ok := g.retValue(cc.Body)
+			if !ok {
+				g.fail("enums.go: %s: unsupported case body", fd.Name.Name)
+				continue
+			}
+			if cc.List == nil {
+				def = val
+				continue
+			}
+			for _, e := range cc.List {
+				lit, ok := e.(*ast.BasicLit)
+				if !ok || lit.Kind != token.STRING {
+					g.fail("enums.go: %s: case is not a string literal", fd.Name.Name)
+					continue
+				}
+				sv, _ := strconv.Unquote(lit.Value)
+				cases = append(cases, fmt.Sprintf("if String.eqb s %s then %s else", coqStrLit(sv), val))
+			}
+		}
+		if def == "" {
+			g.fail("enums.go: %s: no default case", fd.Name.Name)
+			continue
+		}
+		fmt.Fprintf(&b, "Definition %s %s : Z :=\n  %s\n  %s.\n", fd.Name.Name, args, strings.Join(cases, "\n  "), def)
+		found++
+	}
+	if found < 8 {
+		g.fail("enums.go: only %d string decoders recognised (expected 8)", found)
+	}
+	return b.String()
+}
+
+// map literal `name = map[..]..{k: v, ...}` at package level or as := inside a function
+func findMapLit(f *ast.File, name string) *ast.CompositeLit {
+	var out *ast.CompositeLit
+	ast.Inspect(f, func(n ast.Node) bool {
+		switch x := n.(type) {
+		case *ast.ValueSpec:
+			for i, id := range x.Names {
+				if id.Name == name && i < len(x.Values) {
+					if cl, ok := x.Values[i].(*ast.CompositeLit); ok {
+						out = cl
+					}
+				}
+			}
+		case *ast.AssignStmt:
+			for i, l := range x.Lhs {
+				if id, ok := l.(*ast.Ident); ok && id.Name == name && i < len(x.Rhs) {
+					if cl, ok := x.Rhs[i].(*ast.CompositeLit); ok {
+						out = cl
+					}
+				}
+			}
+		}
+		return true
+	})
+	return out
+}
+
+func (g *genCtx) genNyct(repo string) string {
+	var b strings.Builder
+	b.WriteString("(* GENERATED from extensions/nyctalerts/nyctalerts.go, extensions/nycttrips/nycttrips.go and proto/*.pb.go by harness/gen.go — do not edit *)\nFrom GV Require Import Base.Prelude.\n\n")
+	fset := token.NewFileSet()
+	pa := filepath.Join(repo, "extensions/nyctalerts/nyctalerts.go")
+	fa, err := parser.ParseFile(fset, pa, nil, 0)
+	if err != nil {
+		g.fail("parse %s: %v", pa, err)
+		return ""
+	}
+	if cl := findMapLit(fa, "priortyToEffect"); cl == nil {
+		g.fail("nyctalerts.go: priortyToEffect map literal not found")
+	} else {
+		var rows []string
+		for _, e := range cl.Elts {
+			kv, ok := e.(*ast.KeyValueExpr)
+			if !ok {
+				g.fail("priortyToEffect: element is not key: value")
+				continue
+			}
+			k, ok1 := g.intValue(kv.Key)
+			v, ok2 := g.intValue(kv.Value)
+			if !ok1 || !ok2 {
+				g.fail("priortyToEffect: unresolved constant")
+				continue
+			}
+			rows = append(rows, fmt.Sprintf("(%s, %s)", coqZ(k), coqZ(v)))
+		}
+		fmt.Fprintf(&b, "(* Mercury priority -> GTFS-realtime effect *)\nDefinition priority_to_effect : list (Z * Z) :=\n  [%s].\n\n", strings.Join(rows, "; "))
+	}
+	if cl := findMapLit(fa, "timetabledNoServicePriorities"); cl == nil {
+		g.fail("nyctalerts.go: timetabledNoServicePriorities map literal not found")
+	} else {
+		var rows []string
+		for _, e := range cl.Elts {
+			kv, ok := e.(*ast.KeyValueExpr)
+			if !ok {
+				continue
+			}
+			k, ok1 := g.intValue(kv.Key)
+			if id, ok := kv.Value.(*ast.Ident); !ok || id.Name != "true" || !ok1 {
+				g.fail("timetabledNoServicePriorities: unsupported element")
+				continue
+			}
+			rows = append(rows, coqZ(k))
+		}
+		fmt.Fprintf(&b, "Definition timetabled_no_service : list Z := [%s].\n\n", strings.Join(rows, "; "))
+	}
+	pt := filepath.Join(repo, "extensions/nycttrips/nycttrips.go")
+	ft, err := parser.ParseFile(fset, pt, nil, 0)
+	if err != nil {
+		g.fail("parse %s: %v", pt, err)
+		return ""
+	}
+	if cl := findMapLit(ft, "buggyStationIDs"); cl == nil {
+		g.fail("nycttrips.go: buggyStationIDs map literal not found")
+	} else {
+		var rows []string
+		for _, e := range cl.Elts {
+			kv, ok := e.(*ast.KeyValueExpr)
+			if !ok {
+				continue
+			}
+			lit, ok1 := kv.Key.(*ast.BasicLit)
+			if id, ok := kv.Value.(*ast.Ident); !ok || id.Name != "true" || !ok1 {
+				g.fail("buggyStationIDs: unsupported element")
+				continue
+			}
+			sv, _ := strconv.Unquote(lit.Value)
+			rows = append(rows, coqStrLit(sv))
+		}
+		fmt.Fprintf(&b, "(* stations whose M-train platforms are swapped *)\nDefinition buggy_station_ids : list string := [%s].\n\n", strings.Join(rows, "; "))
+	}
+	// numeric values of the proto enum constants the models mention
+	for _, n := range []string{"Alert_UNKNOWN_CAUSE", "Alert_TECHNICAL_PROBLEM", "Alert_MAINTENANCE", "Alert_UNKNOWN_EFFECT", "Alert_ACCESSIBILITY_ISSUE",
+		"Alert_NO_SERVICE", "Alert_REDUCED_SERVICE", "Alert_SIGNIFICANT_DELAYS", "Alert_MODIFIED_SERVICE", "Alert_ADDITIONAL_SERVICE",
+		"NyctTripDescriptor_NORTH", "NyctTripDescriptor_SOUTH", "TripDescriptor_SCHEDULED", "TripUpdate_StopTimeUpdate_SCHEDULED", "VehiclePosition_UNKNOWN_CONGESTION_LEVEL"} {
+		v, ok := g.consts[n]
+		if !ok {
+			g.fail("proto constant %s not found", n)
+			continue
+		}
+		fmt.Fprintf(&b, "Definition %s : Z := %s.\n", n, coqZ(v))
+	}
+	return b.String()
+}
 
 func runGen(args []string) int {
+	if len(args) != 2 {
+		fmt.Fprintln(os.Stderr, "usage: harness gen <repo> <outdir>")
+		return 2
+	}
+	repo, out := args[0], args[1]
+	g := &genCtx{consts: map[string]int64{}}
+	for _, p := range []string{"enums.go", "proto/gtfs-realtime.pb.go", "proto/us-ny-mta-alerts-extension.pb.go", "proto/us-ny-mta-trips-extension.pb.go"} {
+		g.loadConsts(filepath.Join(repo, p))
+	}
+	enums := g.genEnums(repo)
+	nyct := g.genNyct(repo)
+	if len(g.errs) > 0 {
+		for _, e := range g.errs {
+			fmt.Fprintln(os.Stderr, "gen:", e)
+		}
+		return 1
+	}
+	os.MkdirAll(out, 0o755)
+	if err := os.WriteFile(filepath.Join(out, "Enums.v"), []byte(enums), 0o644); err != nil {
+		fmt.Fprintln(os.Stderr, err)
+		return 1
+	}
+	if err := os.WriteFile(filepath.Join(out, "NyctTables.v"), []byte(nyct), 0o644); err != nil {
+		fmt.Fprintln(os.Stderr, err)
+		return 1
+	}
 	return 0
 }
